@@ -649,3 +649,82 @@ def rule_queryfrozen(P) -> RuleResult:
             if len(res.findings) == f0:
                 res.ok({'function': sel.fq, 'outer_ordered': ordered, 'outer_aggregate': grouped, 'paths': n - n0, 'stores_into_subquery': 0})
     return res
+
+
+# ----------------------------------------------------------------------
+# R-WALK (C05, C08, C09): every node of a statement is visited - so every placeholder is found, whatever clause or subquery holds it
+
+def rule_walk(P) -> RuleResult:
+    """parser.ast.walk on terms over a small abstract tree (nodes in plain fields, in a list, in a list inside a list, below another
+    node; fields holding None, a string and the parse position): every node is yielded exactly once.  Compiler.compile collects the
+    placeholders from this walk: a node that is not visited is a placeholder that is neither counted nor checked against the
+    parameters (and then fails, or is bound wrongly, when it is compiled)."""
+    from ..symex import Sym, T, SList, Engine, show, gname
+    res = RuleResult('R-WALK')
+    res.exhaustive = True
+    m = P.module('beanquery.parser.ast')
+    w = m.toplevel_funcs.get('walk')
+    nd = m.classes.get('Node')
+    if not w or nd is None or 'walk' not in nd.methods:
+        raise AnalysisError('anchor vanished: parser.ast.walk / Node.walk')
+    fi = w[-1]
+    ROOT, C1, C2, C3, C4, C5 = (Sym(n) for n in ('ROOT', 'CHILD_IN_FIELD', 'CHILD_IN_LIST', 'CHILD_IN_NESTED_LIST', 'GRANDCHILD', 'LAST_FIELD_CHILD'))
+    PI = Sym('PARSEINFO')
+    NODES = {ROOT: [('first', C1), ('items', SList([C2, SList([C3])])), ('absent', None), ('text_', 'text'), ('parseinfo', PI), ('last', C5)],
+             C1: [('operand', C4), ('parseinfo', PI)], C2: [('parseinfo', PI)], C3: [], C4: [('value', 3)], C5: []}
+
+    def on_call(fn, fv, rc, a, k, ex, node_):
+        f = str(fn)
+        if (f.endswith('dataclasses.fields') or f == 'fields') and a and a[0] in NODES:
+            return SList([T('field', (a[0], name)) for name, _ in NODES[a[0]]])
+        if f == 'getattr' and len(a) >= 2 and a[0] in NODES and isinstance(a[1], str):
+            d = dict(NODES[a[0]])
+            return d[a[1]] if a[1] in d else (a[2] if len(a) > 2 else NotImplemented)
+        return NotImplemented
+
+    def on_attr(base, attr, ex):
+        if isinstance(base, T) and base.op == 'field':
+            if attr == 'name':
+                return base.args[1]
+            if attr == 'repr':
+                return base.args[1] != 'parseinfo'
+            if attr == 'compare':
+                return base.args[1] != 'parseinfo'
+        if base in NODES and attr in dict(NODES[base]):
+            return dict(NODES[base])[attr]
+        return NotImplemented
+
+    def on_isinstance(v, c, ex):
+        names = [gname(x).split('.')[-1] for x in (c.args if isinstance(c, T) and c.op == 'tuple' else [c])]
+        return ('Node' in names and v in NODES) or (bool({'list', 'tuple', 'Sequence'} & set(names)) and isinstance(v, SList))
+    want = sorted(map(show, NODES))
+    n = 0
+    for p in Engine(P, on_call=on_call, on_attr=on_attr, on_isinstance=on_isinstance, inline_generators='lazy', max_depth=16).paths(fi, {fi.params[0]: ROOT}):
+        n += 1
+        ys = [e[1] for e in p.events if e[0] == 'yield']
+        if p.outcome == 'return' and p.value is not None and not ys:
+            v = p.value
+            ys = list(v.items) if isinstance(v, SList) and not v.opaque_tail else [v]
+        got = sorted(map(show, ys))
+        if p.decisions or got != want:
+            missing = sorted(set(want) - set(got))
+            twice = sorted({x for x in got if got.count(x) > 1})
+            res.fail(fi.fq, 'walk:coverage', f'walk(statement) must yield every node of the tree exactly once; '
+                     + (f'not visited: {missing}' if missing else f'visited more than once: {twice}' if twice else f'it yields {got}')
+                     + ': a placeholder there is not counted when the parameters are checked', loc(fi))
+        else:
+            res.ok({'function': fi.fq, 'visited': want, 'each': 'once'})
+    if n == 0:
+        raise AnalysisError(f'{fi.fq}: no path on terms')
+    # the method is the function
+    mw = nd.methods['walk']
+    SELF = Sym('NODE')
+    for p in Engine(P, inline_generators='lazy', max_depth=0).paths(mw, {'self': SELF}):
+        v = p.value
+        ok = p.outcome == 'return' and isinstance(v, T) and ((v.op == 'genobj' and v.args[0] is fi and tuple(v.args[2]) == (SELF,)) or
+                                                             (v.op == 'call' and str(v.args[0]).split('.')[-1] == 'walk' and tuple(v.args[1]) == (SELF,)))
+        if ok:
+            res.ok({'method': mw.fq, 'is': 'walk(self)'})
+        else:
+            res.fail(mw.fq, 'walk:method', f'Node.walk() is walk(self); found `{show(v)[:80]}`', loc(mw))
+    return res
